@@ -125,6 +125,12 @@ def nodefault_def(did):
                       variant("Off", "tuple", [field("optT")], dis=True)], generics="tynd")
 
 
+def unsized_def(did):
+    """a type parameter that may be unsized (`T: ?Sized`, instantiated with str): every generated item has to repeat the bound"""
+    return enum(did, [variant("Leaf"), variant("Boxed", "tuple", [field("optboxT")]), variant("Off", dis=True),
+                      variant("Tag", "named", [field("phT", "of"), field("u8", "n")])], generics="tyq")
+
+
 def selfref_def(did):
     """a recursive enum whose own Default is written through its iterator ("the first variant"): well founded as long as an
     item is built only when it is yielded"""
@@ -171,23 +177,25 @@ def list_module(E):
     return src
 
 
-def lists_module(E):
-    """C08: COUNT, VariantNames, VariantArray and iter on a field-less enum"""
-    src = SG.HEADER + D.print_enum(E, ["EnumIter", "EnumCount", "VariantNames", "VariantArray"]) + "\n" + probe_nocapture(E)
+def lists_module(E, array=True):
+    """C08: COUNT, VariantNames, VariantArray and iter on a field-less enum (array=False: an enum with payloads, without VariantArray)"""
+    ds = ["EnumIter", "EnumCount", "VariantNames"] + (["VariantArray"] if array else [])
+    src = SG.HEADER + D.print_enum(E, ds) + "\n" + probe_nocapture(E)
     if E["id"] % 2 == 0:
         src += D.BLANKET_TRAIT + D.decoys(E, ["EnumIter", "EnumCount", "VariantNames"])
     it = "<%s as strum::IntoEnumIterator>::iter()" % D.inst(E)
     src += RUN
+    arr = ("<%s as strum::VariantArray>::VARIANTS.iter().map(|x| x.decl_index().to_string()).collect()" % D.inst(E)) if array else "Vec::new()"
     src += ("    let r = catch(|| {\n"
             "        let iter: Vec<String> = %s.map(|x| x.decl_index().to_string()).collect();\n"
             "        let iter_count = %s.count();\n"
             "        let count = <%s as strum::EnumCount>::COUNT;\n"
             "        let names = jstrs(<%s as strum::VariantNames>::VARIANTS);\n"
-            "        let array: Vec<String> = <%s as strum::VariantArray>::VARIANTS.iter().map(|x| x.decl_index().to_string()).collect();\n"
-            "        format!(\"{{\\\"op\\\":\\\"lists\\\",\\\"def\\\":%d,\\\"count\\\":{},\\\"iter_count\\\":{},\\\"iter\\\":{},\\\"names\\\":{},\\\"array\\\":{}}}\", count, iter_count, jlist(&iter), names, jlist(&array))\n"
+            "        let array: Vec<String> = %s;\n"
+            "        format!(\"{{\\\"op\\\":\\\"lists\\\",\\\"def\\\":%d,\\\"noarr\\\":%s,\\\"count\\\":{},\\\"iter_count\\\":{},\\\"iter\\\":{},\\\"names\\\":{},\\\"array\\\":{}}}\", count, iter_count, jlist(&iter), names, jlist(&array))\n"
             "    });\n"
             "    match r { Ok(e) => o.line(&e), Err(p) => o.line(&format!(\"{{\\\"op\\\":\\\"panic\\\",\\\"def\\\":%d,\\\"i\\\":0,\\\"msg\\\":{}}}\", jcps(&p))) }\n"
-            % (it, it, D.inst(E), D.inst(E), D.inst(E), E["id"], E["id"]))
+            % (it, it, D.inst(E), D.inst(E), arr, E["id"], "false" if array else "true", E["id"]))
     src += "}\n"
     return src
 
